@@ -360,10 +360,43 @@ class SNum:
     self.e = e
 
   def _bin(self, o, f):
+    if isinstance(o, float) and not isinstance(o, SNum) and (
+        o != o or o in (float('inf'), float('-inf'))):
+      return self._nonfinite(o, f)
     b = _lift(o)
     if b is None:
       return NotImplemented
     return SNum(f(self.e, b))
+
+  def _nonfinite(self, o, f):
+    """IEEE result of combining a finite symbolic real with +-inf / nan: the
+    sign of the symbolic operand is decided by a fork."""
+    if o != o:
+      return float('nan')
+    # probe the operation on concrete stand-ins for the three sign classes
+    def probe(v):
+      try:
+        r = f(z3.RealVal(v), z3.RealVal(10**30 if o > 0 else -10**30))
+        r = frac_of(z3.simplify(r))
+      except Exception:  # pylint: disable=broad-except
+        return None
+      return r
+    if eng().branch(self.e > 0):
+      r = probe(2)
+    elif eng().branch(self.e < 0):
+      r = probe(-2)
+    else:
+      r = probe(0)
+      if r is not None and r == 0 and probe(2) is not None and abs(
+          probe(2)) > 10**20:
+        return float('nan')        # 0 * inf
+    if r is None:
+      return float('nan')
+    if abs(r) > 10**20:
+      return float('inf') if r > 0 else float('-inf')
+    if abs(r) < Fraction(1, 10**20):
+      return 0.0
+    raise Unsupported('non-finite arithmetic with an unexpected result')
 
   def __add__(self, o): return self._bin(o, lambda a, b: a + b)
   def __radd__(self, o): return self._bin(o, lambda a, b: b + a)
@@ -373,12 +406,18 @@ class SNum:
   def __rmul__(self, o): return self._bin(o, lambda a, b: b * a)
 
   def __truediv__(self, o):
+    if isinstance(o, float) and not isinstance(o, SNum) and (
+        o != o or o in (float('inf'), float('-inf'))):
+      return self._nonfinite(o, lambda a, b: a / b)
     b = _lift(o)
     if b is None:
       return NotImplemented
     return SNum(_div(self.e, b))
 
   def __rtruediv__(self, o):
+    if isinstance(o, float) and not isinstance(o, SNum) and (
+        o != o or o in (float('inf'), float('-inf'))):
+      return self._nonfinite(o, lambda a, b: b / a)
     b = _lift(o)
     if b is None:
       return NotImplemented
